@@ -178,7 +178,7 @@ def events_view(app, limit=60):
 
 def build_case(spec, max_msgs=12, max_size=2000, adversary=True):
     seed = spec["seed"]
-    world = World(seed)
+    world = World(seed, mailbox_mode=spec.get("mode", "tcp"), welcome_error=spec.get("welcome_error"))
     rng = world.work_rng
     kind = spec["kind"]
     cfg = {
